@@ -12,8 +12,9 @@ Besides, the property is stated directly on python's observations (no model invo
 `$match` = find(filter), `$sort` = find().sort(), `$skip/$limit` = slices (rejected outside the
 rules), `$count` = count_documents (no document over no input), inclusion/exclusion `$project` =
 the find projection, `$unwind` = the flat map with its index, `$group` = partition + fold of the
-eight accumulators, `$lookup` = join, a multi-entry `$addFields` = the merge of its entries, a
-rejected stage = an error, and the prefix law aggregate(p ++ q) = aggregate(q) over a collection
+eight accumulators (names refused up front, also over no documents), `$lookup` = join, a
+multi-entry `$addFields` = the merge of its entries, constants under dotted names = the deep write
+(into every item of an array), a rejected stage = an error, and the prefix law aggregate(p ++ q) = aggregate(q) over a collection
 holding aggregate(p)'s output.
 
 The witnesses of the findings that were repaired in the library (known_findings.json, status
@@ -280,6 +281,39 @@ def ref_unwind(docs, opts):
     return out
 
 
+def ref_deep_set(value, parts, new):
+    """`new` written at the dotted path `parts` below `value`: through a document into (or next
+    to) its field, through an array into every item of it, in the place of anything else"""
+    if not parts:
+        return copy.deepcopy(new)
+    if isinstance(value, list):
+        return [ref_deep_set(item, parts, new) for item in value]
+    out = dict(value) if isinstance(value, dict) else {}
+    out[parts[0]] = ref_deep_set(out.get(parts[0]), parts[1:], new)
+    return out
+
+
+def constant_entries(opts):
+    """an `$addFields` specification of (possibly dotted) names, none a prefix of another, each
+    set to a constant"""
+    if not isinstance(opts, dict) or not opts:
+        return False
+    paths = []
+    for k, v in opts.items():
+        if not isinstance(k, str) or '$' in k or any(c == '' for c in k.split('.')):
+            return False
+        if not (v is None or isinstance(v, (int, float, bool)) or
+                (isinstance(v, str) and not v.startswith('$'))):
+            return False
+        paths.append(k.split('.'))
+    for i, a in enumerate(paths):
+        for b in paths[i + 1:]:
+            n = min(len(a), len(b))
+            if a[:n] == b[:n]:
+                return False
+    return True
+
+
 def plain_flags(spec):
     return (isinstance(spec, dict) and spec and
             all(isinstance(k, str) and '.' not in k and not k.startswith('$') for k in spec) and
@@ -342,6 +376,16 @@ def direct_oracles(ctx, case, db, stats):
         name = 'unwind=flat map'
         got = agg(coll, [{'$unwind': copy.deepcopy(opts)}])
         want = ref_unwind(attempt(lambda: list(coll.find())), opts)
+    elif op in ('$addFields', '$set') and constant_entries(opts) and \
+            any('.' in k for k in opts):
+        # a dotted name writes below the documents it goes through, into every item of an array
+        name = 'addFields=deep write of constants'
+        got = agg(coll, [{op: opts}])
+        want = []
+        for d in attempt(lambda: list(coll.find())):
+            for k, v in opts.items():
+                d = ref_deep_set(d, k.split('.'), v)
+            want.append(d)
     elif op in ('$addFields', '$set') and isinstance(opts, dict) and len(opts) >= 2 and \
             all(isinstance(k, str) and k and '.' not in k and not k.startswith('$') for k in opts):
         # every entry is evaluated against the document that ENTERED the stage: the stage equals
@@ -560,6 +604,48 @@ def group_lookup_oracles(ctx, case, db, stats):
                           rank=150 + len(repr(docs)))
 
 
+IMPLEMENTED_ACCUMULATORS = ('$sum', '$avg', '$mergeObjects', '$min', '$max', '$first', '$last',
+                            '$addToSet', '$push')
+
+
+def bad_accumulator(stage):
+    """a `$group` / `$bucket` stage naming an accumulator the library does not implement (an
+    unknown name, which MongoDB rejects when it parses the pipeline, or `$stdDevPop`)"""
+    if not isinstance(stage, dict) or len(stage) != 1:
+        return False
+    (op, o), = stage.items()
+    if not isinstance(o, dict):
+        return False
+    if op == '$group':
+        out = {k: v for k, v in o.items() if k != '_id'}
+    elif op == '$bucket' and isinstance(o.get('output'), dict) and \
+            isinstance(o.get('boundaries'), list) and 'groupBy' in o and \
+            set(o) <= {'groupBy', 'boundaries', 'output', 'default'}:
+        out = {k: v for k, v in o['output'].items() if k != '_id'}
+    else:
+        return False
+    return any(isinstance(v, dict) and any(a not in IMPLEMENTED_ACCUMULATORS for a in v)
+               for v in out.values())
+
+
+def accname_oracle(ctx, case, db, full, stats):
+    """the accumulator names of `$group` / `$bucket` are checked whether or not there is a
+    document: a pipeline holding such a stage raises over the collection and over no documents
+    alike (python only)"""
+    p = case['pipeline']
+    if not isinstance(p, list) or not any(bad_accumulator(st) for st in p):
+        return
+    stats['bad accumulator=error, also on no input'] += 1
+    empty = agg(db.nodocs, p)
+    if not isinstance(full, Exception) or not isinstance(empty, Exception):
+        oids = wire.Oids()
+        ctx.violation(render(case, kind='a pipeline whose $group / $bucket names an accumulator that '
+                             'is unknown or not implemented answered documents (it must be refused '
+                             'whether or not there is a document to group)',
+                             py=show_safe(full, oids), over_no_documents=show_safe(empty, oids)),
+                      rank=70 + len(repr(p)))
+
+
 def as_stored_dates(v):
     """the value with every datetime as the server would be sent it: UTC, whole milliseconds —
     what `Collection.aggregate` makes of the datetimes written in a pipeline (written here
@@ -743,6 +829,7 @@ def run_cases(ctx, cases, judge, rng, stats, oracles=True):
         if oracles:
             rejected_oracle(ctx, c, full, stats)
             date_form_oracle(ctx, c, db, full, stats)
+            accname_oracle(ctx, c, db, full, stats)
             for orc in (direct_oracles, group_lookup_oracles):
                 try:
                     orc(ctx, c, db, stats)
